@@ -156,6 +156,9 @@ func genC16(x *Ctx) *c16Scen {
 			if tp.Chance(40) {
 				r.Size = []int{4096, 5000, 9000}[tp.G(3)] // beyond one bufio buffer of the streaming encoders
 			}
+			if tp.Chance(8) {
+				r.Size = []int{33000, 66000}[tp.G(2)] // beyond the deflate window / 64 KiB
+			}
 			r.Seed = tp.G(1 << 20)
 			r.BChunks = chunkPlan(tp, tp.Range(1, 3), 97)
 			if tp.Chance(450) {
